@@ -523,8 +523,9 @@ pub fn hex_to_bytes(s: &str) -> Option<Vec<u8>> {
         let mut v: Vec<u8> = Vec::with_capacity((s.len() + 1) / 3);
 
         for i in (0..s.len()).step_by(3) {
-            let s = u8::from_str_radix(&s[i..i + 2], 16);
-            if let Ok(s) = s {
+            // (get as the str might contain non ascii chars so i might be no char boundary)
+            let s = s.get(i..i + 2).map(|s| u8::from_str_radix(s, 16));
+            if let Some(Ok(s)) = s {
                 v.push(s);
             } else {
                 return None;
